@@ -2,7 +2,7 @@
    Property theorems only; the model is Bac.Net (no proofs), the proofs live in Bac.NetFacts.
    Local theorems hold for EVERY node state, adapter, and arriving frame of the model.  `Fwd` marks the copies made
    by the forwarding section of process_npdu (netservice.py:607-676), `Tx` every other frame a node emits. *)
-From Bac Require Import Base Net NetFacts NetTerm NetTerm2 NetReply NetOnce NetRoute NetArrive NetLocal NetBcast NetTree.
+From Bac Require Import Base Net NetFacts NetTerm NetTerm2 NetReply NetOnce NetRoute NetArrive NetLocal NetBcast NetTree NetFlood.
 Open Scope N_scope.
 
 (* each router hop lowers the hop count by exactly one, and keeps payload and message type *)
@@ -355,6 +355,25 @@ Theorem C06_tree_remote_broadcast_once : forall w d lv up par src ws s smac a_s 
 Proof. exact tree_remote_broadcast_once. Qed.
 Print Assumptions C06_tree_remote_broadcast_once.
 
+(* C06_tree_global_broadcast_once.  `tree_from s lv up par`: loop-free as seen from the source network s — levels
+   (lv s = 0, every inhabited LAN has lv < 255 and lv L = 0 only for s), one up-port per router with its other
+   ports one level further out, and on every LAN other than s exactly one down-port, `par` (tf_unique).  No
+   hypothesis on caches or parked packets.  A global broadcast from a station on s ends with an empty queue, stays
+   quiet for ever, and the nodes handed the payload are exactly the stations of the whole internetwork other than
+   the originator, each exactly once (NoDup).  Proof: the frames in flight are always the copies ff L for a
+   duplicate-free list of LANs closed under "child network of a served LAN" (invariant Inv, NetFlood.v); quiescence
+   by C06_global_broadcast_terminates; every inhabited LAN is served by induction on its level. *)
+Theorem C06_tree_global_broadcast_once : forall w s lv up par src ws smac data,
+  internet_ok (lans w) (nodes w) -> tree_from (lans w) (nodes w) s lv up par -> queue w = [] ->
+  nth_error (nodes w) src = Some ws -> w_ports ws = [(s, smac)] -> station_shape ws -> apdu_ok data = true ->
+  let w0 := submit w src AGB data in
+  exists k osn, queue (run k w0) = [] /\ (forall k', (k <= k')%nat -> run k' w0 = run k w0) /\
+    trace (run k w0) = osn ++ trace w /\ NoDup (hearers osn) /\
+    forall who, In who (hearers osn) <->
+                (who <> src /\ exists wn, nth_error (nodes w) who = Some wn /\ station_shape wn).
+Proof. exact tree_global_broadcast_once. Qed.
+Print Assumptions C06_tree_global_broadcast_once.
+
 (* C06_reply_routable is FALSE of the code when the originator is an application on a router: router with ports
    (net 1, net 2), local adapter = net 2, broadcasts globally; the station on net 1 is shown the router's net-1
    address in local form; its reply to that address arrives on the non-local adapter and is handed to nobody. *)
@@ -581,6 +600,55 @@ Example C06_tree4_remote_broadcast_once :
 Proof.
   eapply (tree_remote_broadcast_once tree4 4 lv4 up4 par4 2%nat _ 1 [1] _ [16; 99; 2] [10] C06_tree4_internet_ok C06_tree4_tree_to_4);
     try reflexivity; cbn; auto 6; try lia.
+Qed.
+
+Definition lv1 (L : N) : nat := if L =? 1 then 0%nat else if L =? 4 then 2%nat else 1%nat.
+Definition up1 (who : nat) : nat := 0%nat.
+Definition par1 (L : N) : nat * nat := if L =? 2 then (0, 1)%nat else if L =? 3 then (0, 2)%nat else (1, 1)%nat.
+
+Example C06_tree4_inhabited : forall L x m, port_of (nodes tree4) x = Some (L, m) -> L = 1 \/ L = 2 \/ L = 3 \/ L = 4.
+Proof.
+  intros L [who p] m Hx. unfold port_of in Hx. cbn [fst snd nodes tree4] in Hx.
+  do 7 (destruct who as [|who]; [do 3 (destruct p as [|p]; [cbn in Hx; inversion Hx; subst; auto|]); destruct p; discriminate|]).
+  destruct who; discriminate.
+Qed.
+
+(* tree4 is loop-free as seen from network 1 *)
+Example C06_tree4_tree_from_1 : tree_from (lans tree4) (nodes tree4) 1 lv1 up1 par1.
+Proof.
+  constructor.
+  - reflexivity.
+  - intros L (x & m & Hx) Hlv. destruct (C06_tree4_inhabited _ _ _ Hx) as [E|[E|[E|E]]]; subst L; try reflexivity; discriminate.
+  - intros L (x & m & Hx). destruct (C06_tree4_inhabited _ _ _ Hx) as [E|[E|[E|E]]]; subst L; cbn; lia.
+  - intros who w H Hsh. cbn [nodes tree4] in H.
+    destruct who as [|[|who]].
+    + inversion H; subst. exists 1, [10]. cbn. split; [reflexivity|].
+      intros p lp mp Hp Hne. do 3 (destruct p as [|p]; [cbn in Hp; inversion Hp; subst; try reflexivity; try contradiction|]).
+      destruct p; discriminate.
+    + inversion H; subst. exists 3, [11]. cbn. split; [reflexivity|].
+      intros p lp mp Hp Hne. do 2 (destruct p as [|p]; [cbn in Hp; inversion Hp; subst; try reflexivity; try contradiction|]).
+      destruct p; discriminate.
+    + exfalso. do 5 (destruct who as [|who]; [inversion H; subst; destruct Hsh as (Hl & _); cbn in Hl; lia|]).
+      destruct who; discriminate.
+  - intros L (x & m & Hx) Hlv. destruct (C06_tree4_inhabited _ _ _ Hx) as [E|[E|[E|E]]]; subst L;
+      try (exfalso; apply Hlv; reflexivity); cbn; (split; [auto 6|]); eexists; (split; [reflexivity|]);
+      (split; [unfold router_shape; cbn; repeat split; [lia|repeat constructor; cbn; intuition discriminate]|discriminate]).
+  - intros L [who p] w Hx Hw Hsh Hne. cbn [fst snd] in *. cbn [lans tree4 lan_members] in Hx.
+    assert (who = 0%nat \/ who = 1%nat).
+    { cbn [nodes tree4] in Hw. destruct who as [|[|who]]; auto.
+      exfalso. do 5 (destruct who as [|who]; [inversion Hw; subst; destruct Hsh as (Hl & _); cbn in Hl; lia|]). destruct who; discriminate. }
+    split_lan L; cbn in Hx; repeat (destruct Hx as [Hx|Hx]; [inversion Hx; subst; try reflexivity; try (exfalso; apply Hne; reflexivity); try (destruct H; discriminate)|]); try contradiction.
+Qed.
+
+Example C06_tree4_global_broadcast_once :
+  let w0 := submit tree4 2 AGB [16; 99; 3] in
+  exists k osn, queue (run k w0) = [] /\ (forall k', (k <= k')%nat -> run k' w0 = run k w0) /\
+    trace (run k w0) = osn ++ trace tree4 /\ NoDup (hearers osn) /\
+    forall who, In who (hearers osn) <->
+                (who <> 2%nat /\ exists wn, nth_error (nodes tree4) who = Some wn /\ station_shape wn).
+Proof.
+  eapply (tree_global_broadcast_once tree4 1 lv1 up1 par1 2%nat _ [1] [16; 99; 3] C06_tree4_internet_ok C06_tree4_tree_from_1); try reflexivity.
+  unfold station_shape. cbn. do 3 eexists. repeat split; auto.
 Qed.
 
 Example C06_tree_unicast_example :
